@@ -766,6 +766,30 @@ NextPin:
 			return fmt.Errorf("Error closing rowsPoints: %v", err)
 		}
 
+		// the node may already have children (it was populated before this
+		// edge arrived), their hashes are part of the new edge's hash
+		rowsHash, err := tx.Query("SELECT hash FROM edges WHERE up=?", nodeID)
+		if err != nil {
+			rollback()
+			return err
+		}
+		defer rowsHash.Close()
+
+		for rowsHash.Next() {
+			var h uint32
+			err := rowsHash.Scan(&h)
+			if err != nil {
+				rollback()
+				return err
+			}
+			hashUpdate ^= h
+		}
+
+		if err := rowsHash.Close(); err != nil {
+			rollback()
+			return fmt.Errorf("Error closing rowsHash: %v", err)
+		}
+
 		_, err = tx.Exec(`INSERT INTO edges(id, up, down, hash, type) VALUES (?, ?, ?, ?, ?)`,
 			edge.ID, edge.Up, edge.Down, 0, edge.Type)
 
